@@ -654,3 +654,85 @@ def make_math():
         return _math.log(x, *a)
     m.log = log
     return m
+
+
+# ------------------------------------------------------------------------------------------
+# json / decimal (C19): the request body is captured as a value tree; the reply is a scripted value tree whose
+# fractional numbers are WireDecimal(m, scale) = the decimal text m * 10^-scale.  loads() honours parse_float.
+
+
+class JsonDoc(object):
+    def __init__(self, value):
+        self.value = value
+
+    def __repr__(self):
+        return 'JsonDoc(%r)' % (self.value,)
+
+
+class WireDecimal(object):
+    def __init__(self, m, scale):
+        self.m, self.scale = m, scale
+
+
+class WireText(object):
+    """body of an HTTP reply: .tree is the JSON value it denotes (or None for a body that is not JSON)"""
+
+    def __init__(self, tree, valid=True):
+        self.tree, self.valid = tree, valid
+
+    def decode(self, *a):
+        return self
+
+    def __len__(self):
+        return 64
+
+    def __getitem__(self, i):
+        return '<body>'
+
+
+class _DecimalStub(object):
+    """marker for decimal.Decimal (only ever used as parse_float)"""
+
+    def __new__(cls, x=0):
+        raise EngineLeak("decimal.Decimal(...) construction is not modelled")
+
+
+def _materialize(t, parse_float):
+    from . import symfloat
+    if isinstance(t, WireDecimal):
+        if parse_float is _DecimalStub:
+            return symfloat.SymDecimal(t.m, t.scale)
+        if parse_float is float or parse_float is None:
+            # correctly rounded decimal -> double: m and 10^scale are exact doubles here, IEEE division is correctly rounded
+            den = symfloat.SymFloat(z3.FPVal(float(10 ** t.scale), symfloat.F64))
+            return symfloat.to_float(t.m) / den if not isinstance(t.m, _rint) else float(t.m) / (10 ** t.scale)
+        raise EngineLeak("json.loads with an unknown parse_float")
+    if isinstance(t, dict):
+        return dict((k, _materialize(v, parse_float)) for k, v in t.items())
+    if isinstance(t, (list, tuple)):
+        return [_materialize(v, parse_float) for v in t]
+    return t
+
+
+def make_json():
+    import json as _json
+    m = types.ModuleType('json')
+
+    def dumps(obj, **kw):
+        return JsonDoc(obj)
+
+    def loads(text, parse_float=None, **kw):
+        if isinstance(text, WireText):
+            if not text.valid:
+                raise ValueError("Expecting value")
+            return _materialize(text.tree, parse_float)
+        return _json.loads(text, parse_float=parse_float, **kw)
+    m.dumps, m.loads = dumps, loads
+    m.JSONDecodeError = _json.JSONDecodeError
+    return m
+
+
+def make_decimal():
+    m = types.ModuleType('decimal')
+    m.Decimal = _DecimalStub
+    return m
